@@ -122,6 +122,37 @@ def explore_feature_build(features, pids, seconds, seed=0):
     return None, rep
 
 
+def miri_explore(features, pid, seconds, seed=0, timeout=3600):
+    """BOUNDED (not a proof): run the replay program of one property under Miri (Stacked Borrows) against the build with the
+    given features: the aliasing discipline of the raw-pointer code, which the index model of rule R17 does not cover.
+    Returns (ub_text or None, report dict).  Only a Miri 'Undefined Behavior' diagnostic counts; any other failure is a note."""
+    binary, note = build(features=features)     # materialises the manifest (and proves the tree builds)
+    if binary is None:
+        return None, {'features': features, 'miri': True, 'note': note}
+    suffix = ('-' + '-'.join(features)) if features else ''
+    mpath = os.path.join(extract.CACHE, 'replay-work' + suffix, 'Cargo.toml')
+    env = dict(os.environ)
+    env['CARGO_NET_OFFLINE'] = 'true'
+    env['CARGO_TARGET_DIR'] = os.path.join(extract.CACHE, 'miri-target')
+    env['MIRIFLAGS'] = '-Zmiri-disable-isolation'
+    ffuzzy = os.path.abspath(os.path.join(extract.REPO, 'ffuzzy'))
+    if _has_hook(ffuzzy):
+        env['RUSTFLAGS'] = (env.get('RUSTFLAGS', '') + ' --cfg a4lg_ffuzzy_verif').strip()
+    try:
+        p = subprocess.run(['cargo', '+nightly', 'miri', 'run', '--offline', '--quiet', '--manifest-path', mpath, '--',
+                            pid, str(int(seed) & 0xFFFFFFFFFFFFFFFF), str(seconds)],
+                           env=env, stdout=subprocess.PIPE, stderr=subprocess.PIPE, text=True, errors='replace', timeout=timeout)
+    except subprocess.TimeoutExpired:
+        return None, {'features': features, 'miri': True, 'property': pid, 'result': 'timeout'}
+    err = p.stderr
+    if 'Undefined Behavior' in err:
+        i = err.index('Undefined Behavior')
+        return err[max(0, i - 200):i + 3000], {'features': features, 'miri': True, 'property': pid, 'result': 'undefined behaviour reported'}
+    out = p.stdout.strip()
+    last = out.split('\n')[-1][:200] if out else ('no output (exit %d): %s' % (p.returncode, err[-300:].replace('\n', ' ')))
+    return None, {'features': features, 'miri': True, 'property': pid, 'result': 'Miri (Stacked Borrows), no undefined behaviour: ' + last}
+
+
 def find_failing_input(pid, violations, tier, seed):
     """violations: the failed obligations (unused for the search itself: the replay program
     explores the whole property).  Returns {'found': True, 'text': ...} or
